@@ -21,3 +21,6 @@ Definition run_groupby (c : table * list colname) : J :=
 Definition run_pivot (c : table * (list colname * colname * colname * agg)) : J :=
   let '(t, (x, y, z, a)) := c in
   let p := pivot x y z a t in JL [JTs p; JTs (unpivot x y z p)].
+(* xyz only (float y values: the label column of unpivot would hold the float itself) *)
+Definition run_pivot_only (c : table * (list colname * colname * colname * agg)) : J :=
+  let '(t, (x, y, z, a)) := c in JL [JTs (pivot x y z a t)].
